@@ -1,0 +1,43 @@
+//go:build verif
+
+package replicator
+
+// VerifStats is a snapshot of the replicator's bookkeeping, exposed only to the
+// verification harness (build tag verif).
+type VerifStats struct {
+	Queue      int
+	InProgress int64
+	Buffer     int
+	Added      int
+	Fetching   int
+	Fetched    int
+}
+
+// VerifStatsOf returns the bookkeeping counters of a replicator created by NewReplicator.
+func VerifStatsOf(rep Replicator) (VerifStats, bool) {
+	r, ok := rep.(*replicator)
+	if !ok {
+		return VerifStats{}, false
+	}
+
+	r.muProcess.RLock()
+	defer r.muProcess.RUnlock()
+
+	st := VerifStats{Queue: r.queue.Len(), InProgress: r.taskInProgress}
+	for _, k := range r.tasks {
+		switch k {
+		case stateAdded:
+			st.Added++
+		case stateFetching:
+			st.Fetching++
+		case stateFetched:
+			st.Fetched++
+		}
+	}
+
+	r.muBuffer.Lock()
+	st.Buffer = len(r.buffer)
+	r.muBuffer.Unlock()
+
+	return st, true
+}
